@@ -73,6 +73,23 @@ def int_section(b, tier):
         if signed:
             exprs.append(("greater", "-K", -10, [f"const K: {ty} = 10;"]))
             exprs.append(("greater_or_equal", "-(K) - 1", -11, [f"const K: {ty} = 10;"]))
+        # user constants with the names a generator is most likely to use itself, literal-only expressions, nested parentheses
+        exprs.append(("less_or_equal", "MAX", 60, [f"pub const MAX: {ty} = 60;"]))
+        exprs.append(("greater_or_equal", "MIN", 7, [f"pub const MIN: {ty} = 7;"]))
+        exprs.append(("less", "MAX - MIN", 53, [f"pub const MAX: {ty} = 60; pub const MIN: {ty} = 7;"]))
+        exprs.append(("greater", "MIN + 1", 8, [f"pub const MIN: {ty} = 7;"]))
+        exprs.append(("less", "1 << 4", 16, []))
+        exprs.append(("greater", "(1 << 4) - 1", 15, []))
+        exprs.append(("less_or_equal", "0x0F", 15, []))
+        exprs.append(("greater", "((3))", 3, []))
+        exprs.append(("less", "(A | B)", 7, [f"const A: {ty} = 5; const B: {ty} = 3;"]))
+        exprs.append(("greater_or_equal", "(K + 2)", 12, [f"const K: {ty} = 10;"]))
+        exprs.append(("less", "LOWER", 30, [f"const LOWER: {ty} = 30;"]))
+        exprs.append(("greater", "UPPER", 30, [f"const UPPER: {ty} = 30;"]))
+        exprs.append(("less_or_equal", "RANGE", 30, [f"const RANGE: {ty} = 30;"]))
+        if signed:
+            exprs.append(("greater_or_equal", "-MAX", -60, [f"pub const MAX: {ty} = 60;"]))
+            exprs.append(("greater", "-(1 << 2)", -4, []))
         for ei, (kind, text, den, sup) in enumerate(exprs):
             if tier == "quick" and (ei + ti) % 2 != 0:
                 continue
@@ -84,6 +101,13 @@ def int_section(b, tier):
                 other_v = min(hi, den + 300)
                 other = Vld("less_or_equal", str(other_v), other_v)
             d = mk([Vld(kind, text, den), other] if ei % 2 == 0 else [other, Vld(kind, text, den)], sup=sup)
+        # a bound that mentions a user constant called MIN / MAX while the *other* bound is a literal (a generator that binds its own MIN / MAX would capture it)
+        mk([Vld("greater_or_equal", "MAX / 10", 6), Vld("less_or_equal", "40", 40)], sup=[f"pub const MAX: {ty} = 60;"])
+        mk([Vld("less_or_equal", "MIN * 10", 70), Vld("greater_or_equal", "3", 3)], sup=[f"pub const MIN: {ty} = 7;"])
+        mk([Vld("greater", "3", 3), Vld("less", "MIN * 10", 70)], sup=[f"pub const MIN: {ty} = 7;"])
+        if signed:
+            mk([Vld("greater_or_equal", "-MAX", -60), Vld("less_or_equal", "25", 25)], sup=[f"pub const MAX: {ty} = 60;"])
+            mk([Vld("less_or_equal", "-MIN", 60), Vld("greater_or_equal", "-25", -25)], sup=[f"pub const MIN: {ty} = -60;"])
         # single-sided bounds at the extremes (wide ranges: C09 only unless the type is small)
         t14 = ("C09", "C14") if bits <= 16 else ("C09",)
         mk([Vld("greater_or_equal", f"{ty}::MIN", lo)], tags=t14)
@@ -180,6 +204,10 @@ def float_section(b, tier):
         for li, (lt, lv) in enumerate(lows):
             mk([(["greater_or_equal", "greater"][li % 2], lt, lv)], finite_at=[None, 1][li % 2], sup=esup)
             mk([(["less", "less_or_equal"][li % 2], lt, lv)], finite_at=[0, None][li % 2], sup=esup)
+        mk([("greater_or_equal", "MIN", Fraction(2)), ("less_or_equal", "MAX", Fraction(30))], sup=[f"pub const MIN: {ty} = 2.0; pub const MAX: {ty} = 30.0;"])
+        mk([("greater", "-MAX", Fraction(-30)), ("less", "MAX", Fraction(30))], finite_at=0, sup=[f"pub const MAX: {ty} = 30.0;"])
+        mk([("greater_or_equal", "LOWER", Fraction(2)), ("less_or_equal", "UPPER", Fraction(30))], sup=[f"const LOWER: {ty} = 2.0; const UPPER: {ty} = 30.0;"])
+        mk([("greater_or_equal", "RANGE", Fraction(2)), ("less", "X", Fraction(30))], finite_at=2, sup=[f"const RANGE: {ty} = 2.0; const X: {ty} = 30.0;"])
         # const-valued bounds
         mk([("greater", "LO", Fraction(-7)), ("less", "HI", Fraction(7))], sup=[f"const LO: {ty} = -7.0; const HI: {ty} = 7.0;"])
         mk([("greater_or_equal", "LO", Fraction(1, 4))], finite_at=1, sup=[f"const LO: {ty} = 0.25;"])
